@@ -76,9 +76,9 @@ def C04_full (v : Variant) : Prop :=
     run v as4 (encode u ++ extra) = some (specEvents as4 u r w)
 
 /-- With pad bits masked (the repair) C04 holds in full. -/
-theorem C04_full_repaired : C04_full repaired := by
+theorem C04_full_repaired (v : Variant) (hv : v.maskPad = true) : C04_full v := by
   intro as4 u r w extra hwf hr hw
-  exact run_encode repaired as4 u r w extra hwf hr hw (Or.inl rfl)
+  exact run_encode v as4 u r w extra hwf hr hw (Or.inl hv)
 
 /-- The code as written satisfies C04 on every UPDATE whose prefixes all have zero pad
     bits (guard = `u.clean ∧ allClean r ∧ allClean w`). -/
@@ -102,6 +102,22 @@ theorem C04_counterexample : ¬ C04_full asWritten := by
   have h' := h true witness [] [] [] witness_wf (.absent (by decide)) (.absent (by decide))
   revert h'
   decide
+
+/-- The defect characterised: the code as written derives *nothing* from any well-formed
+    UPDATE that has a dirty pad bit in a conventional field (`from_octets` fails) ... -/
+theorem C04_as_written_rejects_dirty (as4 : Bool) (u : Upd) (extra : Bytes) (hwf : u.wfRfc)
+    (hd : ¬ u.clean) : run asWritten as4 (encode u ++ extra) = none := by
+  unfold run; rw [decode_dirty u extra hwf hd]
+
+/-- ... or in a supported-family MP_REACH / MP_UNREACH (`explode_*` fails). -/
+theorem C04_as_written_rejects_dirty_mp (mb : Nat) (ps : List Pfx) (h : ∀ p ∈ ps, p.wfRfc mb)
+    (hd : ∃ p ∈ ps, ¬ p.clean) : decPfxs asWritten mb (encPfxs ps) = none :=
+  decPfxs_dirty mb ps h hd
+
+/-- The encoder's output is an octet string (so `wfRfc`'s bounds are exactly what makes the
+    length fields fit), and the round trips above therefore speak about real PDUs. -/
+theorem C04_encode_octets (u : Upd) (hwf : u.wfRfc) (ho : u.octets) : ∀ b ∈ encode u, b < 256 :=
+  encode_octets u hwf ho
 
 /-- ... and the guard of `C04_partial` excludes something real: the witness is not clean. -/
 example : ¬ witness.clean := by decide
@@ -127,6 +143,48 @@ example : run asWritten true (encode sample) =
     some [ann true sample.attrs .v6u ⟨32, [0x20, 1, 0x0d, 0xb8]⟩,
           ann true sample.attrs .v4u ⟨24, [192, 0, 2]⟩,
           wdr true .v4u ⟨8, [10]⟩] := by decide
+
+/-! ## The BMP Route Monitoring path in the Dumping phase -/
+
+/-- C04 for an UPDATE arriving in a BMP Route Monitoring message during the Dumping phase
+    while no End-of-RIB is pending. -/
+def C04_bmp_full (v : Variant) : Prop :=
+  ∀ (as4 : Bool) (u : Upd) (r w : List (Fam × Pfx)) (extra : Bytes),
+    u.wfRfc → ReachIs u.attrs r → UnreachIs u.attrs w →
+    runBmpDumping v as4 (encode u ++ extra) = some (specEvents as4 u r w)
+
+theorem C04_bmp_full_repaired (v : Variant) (hp : v.maskPad = true) (he : v.eorDrops = false) :
+    C04_bmp_full v := by
+  intro as4 u r w extra hwf hr hw
+  exact runBmpDumping_encode v as4 u r w extra hwf hr hw (Or.inl hp) (Or.inl he)
+
+/-- Code as written: fine unless routecore's `is_eor()` is true for an UPDATE that does
+    carry routes (guard: clean pad bits, and `isEorRc u = false` or no route at all). -/
+theorem C04_bmp_partial (as4 : Bool) (u : Upd) (r w : List (Fam × Pfx)) (extra : Bytes)
+    (hwf : u.wfRfc) (hr : ReachIs u.attrs r) (hw : UnreachIs u.attrs w)
+    (hclean : u.clean ∧ allClean r ∧ allClean w)
+    (he : isEorRc u = false ∨ specEvents as4 u r w = []) :
+    runBmpDumping asWritten as4 (encode u ++ extra) = some (specEvents as4 u r w) :=
+  runBmpDumping_encode asWritten as4 u r w extra hwf hr hw (Or.inr hclean) (Or.inr he)
+
+/-- ORIGIN, AS_PATH, NEXT_HOP, an *empty* MP_UNREACH for IPv4 unicast, NLRI 203.0.113.0/24. -/
+def witnessBmp : Upd :=
+  ⟨[], [⟨0x40, 1, [0]⟩, ⟨0x40, 2, []⟩, ⟨0x40, 3, [10, 0, 0, 1]⟩, ⟨0x80, 15, [0, 1, 1]⟩],
+   [⟨24, [203, 0, 113]⟩]⟩
+
+/-- The Dumping-phase End-of-RIB shortcut violates C04 (independently of the pad-bit site:
+    the variant here has pad bits repaired): the witness announces 203.0.113.0/24 and
+    yields no route. Replayed on the real state machine by the engine. -/
+theorem C04_bmp_counterexample : ¬ C04_bmp_full ⟨true, true⟩ := by
+  intro h
+  have h' := h true witnessBmp [] [] []
+    ⟨by decide, by decide, by decide, by decide, by decide, by decide, by decide⟩
+    (.absent (by decide))
+    (.supported ⟨0x80, 15, [0, 1, 1]⟩ 1 1 .v4u [] (by decide) rfl (by decide) (by decide))
+  revert h'
+  decide
+
+example : isEorRc witnessBmp = true ∧ witnessBmp.clean := by decide
 
 /-! ## What `specEvents` says, clause by clause -/
 
